@@ -89,7 +89,23 @@ class Exec:
         return [(st, PConst(e.value))]
 
     def ev_JoinedStr(self, e, st):
-        return [(st, ZV('str', fresh('fstr', StringSort())))]      # message text is not modelled
+        """f-string: exact when every part is a string (constant text, str values without conversion / format spec);
+        otherwise opaque text (messages are not modelled)"""
+        simple = all(isinstance(v, ast.Constant) or (isinstance(v, ast.FormattedValue) and v.conversion == -1 and v.format_spec is None)
+                     for v in e.values)
+        if not simple or self.spec.opaque_fstrings:
+            return [(st, ZV('str', fresh('fstr', StringSort())))]
+        outs = []
+        for s1, vals in self.evs([v.value if isinstance(v, ast.FormattedValue) else v for v in e.values], st):
+            if isinstance(vals, Raise): outs.append((s1, vals)); continue
+            if all(self._strlike(v) for v in vals):
+                acc = None
+                for v in vals:
+                    z = self.as_str(s1, v); acc = z if acc is None else Concat(acc, z)
+                outs.append((s1, ZV('str', acc if acc is not None else StringVal(''))))
+            else:
+                outs.append((s1, ZV('str', fresh('fstr', StringSort()))))
+        return outs
 
     def lookup_global(self, name):
         mod = self.spec.module
@@ -124,7 +140,7 @@ class Exec:
             if hasattr(o.obj, attr): return [(st, self.lift_const(getattr(o.obj, attr)))]
             raise Unsupported(f'attribute {attr} of constant {o.obj!r}')
         if isinstance(o, PType):
-            if attr == '__name__': return [(st, ZV('str', fresh('clsname', StringSort())))]
+            if attr == '__name__': return [(st, ZV('str', class_name(class_of(as_kind(o.of, Ref(), st)))))]
             return self.getattr_(st, o.of, attr, node)          # class-level tables are modelled per object
         if isinstance(o, PExc):
             if attr == '__traceback__': return [(st, PConst(TBStub(o)))]
@@ -363,6 +379,12 @@ class Exec:
             if isinstance(l, PConst) and isinstance(r, PConst): return [(st, PConst(l.obj + r.obj))]
             return [(st, ZV('str', Concat(self.as_str(st, l), self.as_str(st, r))))]
         if isinstance(op, ast.Mod) and self._strlike(l): return [(st, ZV('str', fresh('fmt', StringSort())))]
+        if isinstance(op, ast.Add) and (self._strlike(l) or self._strlike(r)) and any(isinstance(x, ZV) and x.kind == 'val' for x in (l, r)):
+            other = r if self._strlike(l) else l
+            outs = []
+            for s1, ss in self.fork(st, Val.is_S(other.z), f'L{ln}.str'):
+                outs.append((s1, ZV('str', Concat(self.as_str(s1, l), self.as_str(s1, r))) if ss else self.raise_(s1, 'TypeError', where='operator')))
+            return outs
         if isinstance(op, ast.BitOr) and isinstance(l, PSet) and isinstance(r, PSet):
             x = fresh('x', l.arr.sort().domain())
             return [(st, PSet(z3.Lambda([x], Or(l.arr[x], r.arr[x])), l.ekind))]
